@@ -5,9 +5,9 @@ set -u
 ID=$1; WT=$2; DEMO=$3; shift 3; [ "$1" = "--" ] && shift
 export GOFLAGS=-mod=mod GOPROXY=off GOSUMDB=off GOTOOLCHAIN=local
 cd $WT || exit 2
-( eval "$DEMO" ) > /tmp/wt2/${ID}_with.log 2>&1; RW=$?
+( eval "$DEMO" ) > $(dirname $WT)/${ID}_with.log 2>&1; RW=$?
 git apply -R _seed/patch.diff || { echo "cannot reverse patch"; exit 2; }
-( eval "$DEMO" ) > /tmp/wt2/${ID}_without.log 2>&1; RWO=$?
+( eval "$DEMO" ) > $(dirname $WT)/${ID}_without.log 2>&1; RWO=$?
 git apply _seed/patch.diff
 mkdir -p /verif/seeded/$ID
 echo "demo '$DEMO': with patch rc=$RW, without patch rc=$RWO" | tee /verif/seeded/$ID/demo_confirm.txt
